@@ -61,6 +61,10 @@ def col_py(col):
             return [None if math.isnan(v) else float(v) for v in col.astype("float64").tolist()]
         return [py(v) for v in col.tolist()]
     if hasattr(col, "to_list"):  # polars
+        tn = type(col.dtype).__name__
+        if tn in ("Datetime", "Duration"):
+            m = UNIT_NS[getattr(col.dtype, "time_unit", "us") or "us"]
+            return [None if v is None else int(v) * m for v in col.to_physical().to_list()]
         return [py(v) for v in col.to_list()]
     return [py(v) for v in list(col)]
 
